@@ -4,3 +4,4 @@ import Dm.Props.C02
 #print axioms Dm.Props.C02.unit_prints_name
 #print axioms Dm.Props.C02.single_field_prints_field
 #print axioms Dm.Props.C02.named_placeholder_prints_field_itself
+#print axioms Dm.Props.C02.attribute_body_is_write_or_delegate
